@@ -44,3 +44,69 @@ PROPS["C01"] = {
             thorough={"cases": 20000, "size": 200, "shards": 16}),
     ],
 }
+
+PROPS["C07"] = {
+    "level": "exploration",
+    "technique": "property-based testing (rapidcheck): independent frame walker + byte accounting over generated batches/configurations",
+    "rule": "cases = generated batches of 0..12 (thorough ..40) packet recipes x DataContext{min,max}; non-trivial when the batch "
+            "segments, aggregates, mixes message types, has a length within +-2 of the fit boundary, pads a frame up to min, or "
+            "is the empty batch; distinct = distinct serialized cases",
+    "assumptions": COMMON_ASSUMPTIONS,
+    "level_text": "Generated-input search with an independent parser of the emitted frames: size bounds, tiling by declared "
+                  "lengths, zero padding only up to min, every payload byte exactly once and in order, empty batch -> no frames.",
+    "level_note": "Trusted: harness/oracle/wire.h message-header layout. Padding is recognised as the zero tail after the last "
+                  "message whose payload-type byte is non-zero.",
+    "stages": [
+        pbt("frame_walker", "pbt_C07", quick={"cases": 1000, "size": 100, "shards": 4},
+            thorough={"cases": 20000, "size": 200, "shards": 16}),
+    ],
+}
+
+PROPS["C08"] = {
+    "level": "exploration",
+    "technique": "property-based testing (rapidcheck): emitted layout compared with a reference aggregation/segmentation model",
+    "rule": "cases = generated batches x DataContext, lengths aimed at fit/no-fit boundaries of the empty and of the current "
+            "frame (weight 10/17); non-trivial when a length is within +-2 of such a boundary, the batch changes message type, "
+            "or a packet follows a last segment; distinct = distinct serialized cases",
+    "assumptions": COMMON_ASSUMPTIONS + ["the property pins the layout uniquely, so equality with the reference model is not "
+                                         "stronger than the statement; message-less frames are ignored here (C07)"],
+    "level_text": "Generated-input search against a reference layout model written from the statement (segment iff the packet "
+                  "does not fit an empty frame; segments alone, consecutive, full; append iff fits, same type, no segment).",
+    "level_note": "Trusted: harness/oracle/model.h referenceLayout.",
+    "stages": [
+        pbt("layout_model", "pbt_C08", quick={"cases": 1000, "size": 100, "shards": 4},
+            thorough={"cases": 20000, "size": 200, "shards": 16}),
+    ],
+}
+
+PROPS["C09"] = {
+    "level": "exploration",
+    "technique": "stateful property-based testing (rapidcheck): generated operation sequences on one Encoder against a counter/identity model",
+    "rule": "cases = sequences of 1..8 (thorough ..14) operations {setDeviceId, setStreamId, restart, encode via the three "
+            "overloads, encode 20000..33000 one-byte packets with max=25}; non-trivial when the 16-bit counter wraps, or an id "
+            "change/restart after emitted frames is followed by another encode; distinct = distinct serialized sequences",
+    "assumptions": COMMON_ASSUMPTIONS,
+    "level_text": "Model-based search over operation histories: every emitted frame header and getSequenceCounter() are compared "
+                  "with a three-variable model after every operation, including histories that wrap the counter.",
+    "level_note": "Trusted: CMP header layout in harness/oracle/wire.h.",
+    "stages": [
+        pbt("op_sequences", "pbt_C09", quick={"cases": 300, "size": 100, "shards": 4},
+            thorough={"cases": 5000, "size": 200, "shards": 16}),
+    ],
+}
+
+PROPS["C10"] = {
+    "level": "exploration",
+    "technique": "metamorphic property-based testing (rapidcheck): encoder with generated history vs fresh encoder on the same final batch",
+    "rule": "cases = (history of 0..4 (thorough ..6) encode calls incl. empty batches, final batch + context), final batch biased to "
+            "continue the history's last message type and to need segmentation; non-trivial when the history is non-empty and the "
+            "final batch segments or mixes message types; distinct = distinct serialized cases",
+    "assumptions": COMMON_ASSUMPTIONS + ["differential oracle: the library on a fresh object is the reference, as the property states"],
+    "level_text": "Metamorphic search: frames of the n-th call must equal a fresh encoder's frames byte for byte outside the "
+                  "sequence counter, with a constant counter offset.",
+    "level_note": "The oracle is the library itself on a fresh object (the relation the property states).",
+    "stages": [
+        pbt("history_vs_fresh", "pbt_C10", quick={"cases": 800, "size": 100, "shards": 4},
+            thorough={"cases": 10000, "size": 200, "shards": 16}),
+    ],
+}
